@@ -808,8 +808,12 @@ class AllTrees(Family):
             sranks.append([int(r[0]), int(r[1])])
         # unrank of the rank gives the same tree back (sampled for the large n)
         step = 1 if n <= 6 else 37
-        back = all(nested_of_tree(tskit.Tree.unrank(n, tuple(ranks[i]))) == trees[i]
-                   for i in range(0, len(trees), step))
+        def _back(i):
+            try:
+                return nested_of_tree(tskit.Tree.unrank(n, tuple(ranks[i]))) == trees[i]
+            except Exception:
+                return False
+        back = all(_back(i) for i in range(0, len(trees), step))
         if n >= 7:      # keep the pipe small: the oracle needs only digests
             return {"n_trees": len(trees), "distinct": len(set(freeze(t) for t in trees)),
                     "all_valid": set(freeze(t) for t in trees) == set(freeze(t) for t in all_topologies(tuple(range(n)))),
@@ -1120,7 +1124,10 @@ class RankInvariance(Family):
         w = build_tree(relabel(t), ids=ids, rng=rng, jitter=True)
         r = w.rank()
         out["mono"] = {"rank": [int(r[0]), int(r[1])], "order": nested_of_tree(w, keep_order=True)}
-        out["back"] = nested_of_tree(tskit.Tree.unrank(n, tuple(out["rank"])))
+        try:
+            out["back"] = nested_of_tree(tskit.Tree.unrank(n, tuple(out["rank"])))
+        except Exception as e:        # the rank of a valid tree must be accepted by unrank
+            out["back"] = exc_class(e)
         return out
 
     def oracle(self, case, obs):
@@ -1328,7 +1335,7 @@ class CountTopologies(Family):
             desc = moves_desc(rng)
             samples = [i for i, nd in enumerate(desc["nodes"]) if nd[0] & 1]
             rng.shuffle(samples)
-            nsets = rng.randrange(1, 5)
+            nsets = rng.randrange(1, min(4, len(samples)) + 1)
             sets = [[] for _ in range(nsets)]
             for u in samples[:rng.randrange(nsets, len(samples) + 1)]:
                 k = rng.randrange(nsets)
